@@ -31,7 +31,8 @@ type SiteSpec struct {
 	Callee string // name as written (last path component match)
 	Occ    int    // 1-based occurrence; 0 = every occurrence
 	Assert []*Clause
-	Assume []*Clause
+	Assume []*Clause // assumed just before the call (listed in the evidence)
+	AssumePost []*Clause // assumed just after the call (may mention r0..)
 }
 
 type LockEffect struct {
@@ -75,11 +76,17 @@ type FuncContract struct {
 	Inline    bool
 	NoInline  bool
 	NoBalance bool // exempt from default lock balance (explicit effect given)
+	TrustCalls []TrustCall // callees whose preconditions are assumed, not proved, in this function
 	Pos       string
 	Havoc     []string // heap keys havocked by a stub
 	Returns   []string // result names for stubs (r0.. default)
 	Trusted   bool     // contract is assumed, body not verified (stubs)
 	Fresh     []int    // result indices that are freshly allocated
+}
+
+type TrustCall struct {
+	Callee string
+	Reason string
 }
 
 type PredDecl struct {
@@ -123,7 +130,7 @@ var clauseKeywords = map[string]bool{
 	"props": true, "requires": true, "ensures": true, "modifies": true, "loop": true, "at": true,
 	"panics_if": true, "safety": true, "inline": true, "noinline": true, "assume": true,
 	"lockeffect": true, "rlockeffect": true, "ghostset": true, "pure": true, "havoc": true, "fresh": true,
-	"nobalance": true,
+	"nobalance": true, "trustcall": true,
 }
 var declKeywords = map[string]bool{"func": true, "stub": true, "pred": true, "ghost": true}
 
@@ -434,6 +441,11 @@ func (cs *ContractSet) parseClause(fc *FuncContract, c rawClause) error {
 		fc.NoInline = true
 	case "nobalance":
 		fc.NoBalance = true
+	case "trustcall":
+		text, reason := splitReason(c.text)
+		for _, f := range strings.Fields(text) {
+			fc.TrustCalls = append(fc.TrustCalls, TrustCall{Callee: f, Reason: reason})
+		}
 	case "loop":
 		// loop N invariant expr | loop N decreases expr
 		f := strings.Fields(c.text)
@@ -498,7 +510,13 @@ func (cs *ContractSet) parseClause(fc *FuncContract, c rawClause) error {
 		case "assert":
 			site.Assert = append(site.Assert, cl)
 		case "assume":
+			_, reason := splitReason(body)
+			cl.Label = reason
 			site.Assume = append(site.Assume, cl)
+		case "assume_post":
+			_, reason := splitReason(body)
+			cl.Label = reason
+			site.AssumePost = append(site.AssumePost, cl)
 		default:
 			return fmt.Errorf("at call: want assert or assume, got %q", f[2])
 		}
